@@ -4,6 +4,7 @@
 from __future__ import annotations
 
 import json
+from dataclasses import fields
 from pathlib import Path, PosixPath, WindowsPath
 from typing import Any, Callable
 
@@ -126,20 +127,23 @@ def _load_parameter(obj_dict: dict[str, Any]) -> Parameter:
     )
 
 
-def _attach_parent_to_expr(expr: expressions.Expr | str | None, parent: Module | Class) -> None:
-    if not isinstance(expr, expressions.Expr):
-        return
-    if isinstance(expr, expressions.ExprAttribute):
+def _attach_parent_to_expr(expr: Any, parent: Module | Class) -> None:
+    # Names can sit at any depth of an expression (`Optional[List[Foo]]`),
+    # so we walk through every field of every sub-expression.
+    if isinstance(expr, expressions.ExprName):
+        expr.parent = parent
+    elif isinstance(expr, expressions.ExprAttribute):
         # Only the first part of a dotted name is looked up in the scope:
         # the next parts were linked to their predecessor when the expression was loaded.
-        if isinstance(expr.first, expressions.ExprName):
-            expr.first.parent = parent
-        return
-    for elem in expr:
-        if isinstance(elem, expressions.ExprName):
-            elem.parent = parent
-        elif isinstance(elem, expressions.ExprAttribute) and isinstance(elem.first, expressions.ExprName):
-            elem.first.parent = parent
+        for index, value in enumerate(expr.values):
+            if index == 0 or not isinstance(value, expressions.ExprName):
+                _attach_parent_to_expr(value, parent)
+    elif isinstance(expr, expressions.Expr):
+        for field in fields(expr):
+            _attach_parent_to_expr(getattr(expr, field.name), parent)
+    elif isinstance(expr, (list, tuple)):
+        for element in expr:
+            _attach_parent_to_expr(element, parent)
 
 
 def _attach_parent_to_exprs(obj: Class | Function | Attribute, parent: Module | Class) -> None:
